@@ -790,7 +790,7 @@ theorem add_iszero_false {p q r : LP R} (hp : p.WF) (hq : q.WF) (h : p.add q = .
 theorem addL_cons_ne_nil (a : List R) (y : R) (ys : List R) : addL a (y :: ys) ≠ [] := by
   cases a <;> simp [addL]
 
-theorem convL_ne_nil {a : List R} (b : List R) (h : a ≠ []) : convL a b ≠ [] := by
+theorem convL_ne_nil_cheb {a : List R} (b : List R) (h : a ≠ []) : convL a b ≠ [] := by
   cases a with
   | nil => exact absurd rfl h
   | cons x xs => exact addL_cons_ne_nil _ _ _
@@ -809,7 +809,7 @@ theorem pwInv_next {k : ℕ} {pw : LP ℚ} (h : PwInv k pw) :
         (pw.dmin + (LP.mk' [(1 / 2 : ℚ), 1 / 2] (-1)).dmin) := by
     simp only [LP.mul, h2, hq, Bool.or_false, Bool.false_eq_true, if_false]
   rw [hm]
-  refine ⟨WF_mk' _ _, iszero_mk'_of_ne_nil (convL_ne_nil _ h1.1) _, ?_⟩
+  refine ⟨WF_mk' _ _, iszero_mk'_of_ne_nil (convL_ne_nil_cheb _ h1.1) _, ?_⟩
   rw [dmin_mk', dmin_mk', h3]; push_cast; ring
 
 theorem smul_of_pwInv {k : ℕ} {pw : LP ℚ} (c : ℚ) (h : PwInv k pw) :
